@@ -107,7 +107,8 @@ def run(pid, tier, seed):
         windows = {0: [[], ["-a", "2023-03-10T03:49:43.561000+00:00"], ["-a", "2023-03-10T03:49:43.560+00:00", "-b", "2023-03-10T03:49:43.566+00:00"]],
                    1: [[], ["-b", "2023-04-02T07:07:00.789680+00:00"]],
                    # (windows that leave exactly one message to a file, and to the whole run)
-                   2: [[], ["-b", "2023-04-02T07:07:00.789680+00:00"]],
+                   2: [[], ["-b", "2023-04-02T07:06:45+00:00"]],
+                   3: [[], ["-b", "2023-04-02T07:07:00.789680+00:00"]],
                    i4: [[], ["-a", "2000-01-01T00:00:00+00:00", "-b", "2000-01-02T03:04:05+00:00"], ["-a", "2000-01-01T00:00:00+00:00"],
                         ["-b", "2031-05-06T07:08:09+00:00"]],
                    i3: [[], ["-a", gen.fmt_ts(gen.BASE + 2, 0, 0, 0)], ["-a", "2030-01-01"],
